@@ -93,6 +93,7 @@ type mstream struct {
 	rejSince   bool // chunks of this key were rejected since the stream started
 	files      map[string][]byte
 	order      []string
+	idle       int // ticks since the last accepted chunk of this stream
 }
 
 type finalInfo struct {
@@ -145,6 +146,9 @@ type world struct {
 	oplog     []opRec
 	logging   bool
 	smallUsed int
+	timeout   int
+	gc        int
+	slow      bool
 	stopped   bool
 	delivered int
 	accepted  int
@@ -200,6 +204,13 @@ func newWorld(ctx *runner.Ctx) *world {
 		func(shard, replica, from uint64) { w.confirms = append(w.confirms, [3]uint64{shard, replica, from}) },
 		func(shard, replica uint64) string { return env.GetSnapshotDir(did, shard, replica) },
 		did, w.rfs)
+	// the receiver's idle timeout and collection interval are set by the run
+	// (the shipped defaults are 900 and 30 ticks): with small values a run can
+	// last many timeouts while no stream is ever silent for one
+	w.timeout = []int{900, 40, 24, 90}[w.src.Intn(4)]
+	w.gc = []int{30, 5, 3, 10}[w.src.Intn(4)]
+	w.ch.VerifSetTimeouts(uint64(w.timeout), uint64(w.gc))
+	w.slow = w.timeout != 900 && w.src.Chance(1, 3)
 	return w
 }
 
